@@ -244,6 +244,10 @@ func (f *Frame) applyContract(spec *UnitSpec, name string, c *ssa.CallCommon, si
 	} else if u.fn.Pkg != nil {
 		pkg = u.fn.Pkg.Pkg
 	}
+	var calleePkg *ssa.Package
+	if callee := c.StaticCallee(); callee != nil {
+		calleePkg = rootFn(callee).Pkg
+	}
 	mkEnv := func(cur *State, extra map[string]TV) *Env {
 		e := &Env{u: u, st: cur, old: pre, bound: map[string]boundVar{}, pkg: pkg, qctr: &u.qctr}
 		e.lookup = func(n string) (TV, bool) {
@@ -258,6 +262,17 @@ func (f *Frame) applyContract(spec *UnitSpec, name string, c *ssa.CallCommon, si
 			if strings.HasSuffix(n, "0") {
 				if tv, ok := argMap[n[:len(n)-1]]; ok {
 					return tv, true
+				}
+			}
+			// package-level variables of the callee's (or caller's) package
+			for _, sp := range []*ssa.Package{calleePkg, f.fn.Pkg, rootFn(f.fn).Pkg} {
+				if sp == nil {
+					continue
+				}
+				if g, ok := sp.Members[n].(*ssa.Global); ok {
+					gv := f.val(g, e.st)
+					lv := u.loadLV(gv.LV, gv.LV.Ty, e.st)
+					return TV{T: lv.T, Ty: gv.LV.Ty}, true
 				}
 			}
 			return TV{}, false
@@ -296,7 +311,7 @@ func (f *Frame) applyContract(spec *UnitSpec, name string, c *ssa.CallCommon, si
 	// frame
 	if !spec.ModSet {
 		if !spec.Pure {
-			u.havocAll(st)
+			u.havocAllExcept(st, itemsMatchers(spec.Preserves, spec.Pkg))
 			f.havocClosureArgs(args, st)
 		}
 	} else {
@@ -312,12 +327,9 @@ func (f *Frame) applyContract(spec *UnitSpec, name string, c *ssa.CallCommon, si
 					pre.ghost[m] = u.ghostInit(m, srt)
 				}
 				st.ghost[m] = u.defs.Fresh("gh_"+m, srt)
-				continue
-			}
-			for _, cls := range u.resolveModClasses(m, spec.Pkg) {
-				u.havocClass(st, cls)
 			}
 		}
+		u.havocOnly(st, itemsMatchers(spec.Modifies, spec.Pkg))
 	}
 	// ghost effects declared by the contract: "ensures" may mention ghost variables of the caller by name ($held etc.)
 	res := resultVal(u, st, sig, "r_"+sanitize(anchor))
@@ -351,21 +363,24 @@ func (f *Frame) applyContract(spec *UnitSpec, name string, c *ssa.CallCommon, si
 }
 
 // resolveModClasses maps a modifies item to heap class names known to the unit.
-func (u *Unit) resolveModClasses(item, pkg string) []string {
-	var out []string
+// modMatchers maps a modifies/preserves item to class matchers.
+//   map[K]V -> the three map classes; []T -> Elem.T; Type.field / pkg.Type.field / Type.* ; raw class names (F. Elem. Map* Cell. G.)
+func modMatchers(item, pkg string) []matcher {
+	if strings.HasPrefix(item, "map[") {
+		if end := strings.Index(item, "]"); end > 0 {
+			k, v := sanitize(item[4:end]), sanitize(item[end+1:])
+			return []matcher{{exact: "MapDom." + k + "." + v}, {exact: "MapVal." + k + "." + v}, {exact: "MapLen." + k + "." + v}}
+		}
+	}
+	if strings.HasPrefix(item, "[]") {
+		return []matcher{{exact: "Elem." + sanitize(item[2:])}}
+	}
 	if strings.HasPrefix(item, "F.") || strings.HasPrefix(item, "Elem.") || strings.HasPrefix(item, "Map") || strings.HasPrefix(item, "Cell.") || strings.HasPrefix(item, "G.") {
 		if strings.HasSuffix(item, "*") {
-			p := strings.TrimSuffix(item, "*")
-			for c := range u.classSort {
-				if strings.HasPrefix(c, p) {
-					out = append(out, c)
-				}
-			}
-			return out
+			return []matcher{{prefix: strings.TrimSuffix(item, "*")}}
 		}
-		return []string{item}
+		return []matcher{{exact: item}}
 	}
-	// Type.field or pkg.Type.field or Type.*
 	parts := strings.Split(item, ".")
 	switch len(parts) {
 	case 2:
@@ -374,15 +389,46 @@ func (u *Unit) resolveModClasses(item, pkg string) []string {
 		item = "F." + item
 	}
 	if strings.HasSuffix(item, ".*") {
-		p := strings.TrimSuffix(item, "*")
-		for c := range u.classSort {
-			if strings.HasPrefix(c, p) {
-				out = append(out, c)
+		return []matcher{{prefix: strings.TrimSuffix(item, "*")}}
+	}
+	// a field that is itself a value struct is stored under Type.field.sub: cover both
+	return []matcher{{exact: item}, {prefix: item + "."}}
+}
+
+func itemsMatchers(items []string, pkg string) []matcher {
+	var out []matcher
+	for _, it := range items {
+		if strings.HasPrefix(it, "$") {
+			continue
+		}
+		out = append(out, modMatchers(it, pkg)...)
+	}
+	return out
+}
+
+// resolveModClasses lists the classes known so far that an item selects.
+func (u *Unit) resolveModClasses(item, pkg string) []string {
+	var out []string
+	ms := modMatchers(item, pkg)
+	for c := range u.classSort {
+		if matchAny(ms, c) {
+			out = append(out, c)
+		}
+	}
+	for _, m := range ms {
+		if m.exact != "" {
+			found := false
+			for _, c := range out {
+				if c == m.exact {
+					found = true
+				}
+			}
+			if !found {
+				out = append(out, m.exact)
 			}
 		}
-		return out
 	}
-	return []string{item}
+	return out
 }
 
 // ---------------------------------------------------------------------------
@@ -574,7 +620,18 @@ func (f *Frame) atPoint(where string, st *State, b *ssa.BasicBlock, idx int) {
 				break
 			}
 		}
-		env := f.pointEnv(st, b, idx, nil)
+		var extra map[string]TV
+		if f.lastCallResult != nil {
+			extra = map[string]TV{}
+			if len(f.lastCallResult.Tup) > 0 {
+				for k, tv := range f.lastCallResult.Tup {
+					extra[fmt.Sprintf("$result%d", k)] = TV{T: tv.T, Ty: tv.Ty}
+				}
+			} else if f.lastCallResult.T.S != "" {
+				extra["$result"] = TV{T: f.lastCallResult.T, Ty: f.lastCallResult.Ty}
+			}
+		}
+		env := f.pointEnv(st, b, idx, extra)
 		for i, c := range at.Clauses {
 			switch c.Kind {
 			case "assert":
